@@ -95,7 +95,8 @@ private:
   void save_expansion(Expansion &expansion, const std::string &exp,
                       const vector_string &parameter_names);
 
-  bool has_variadic_args(const vector_string &args) const;
+  bool has_variadic_args(const vector_string &args, bool expand_undefined,
+                         const Ignores &ignores) const;
   std::string r_expand(const Expansion &expansion, const vector_string &args,
                        bool expand_undefined, const Ignores &ignores) const;
 
